@@ -276,6 +276,12 @@ def programs(ctx, model_ok, tmp):
                      {"kind": "program", "program": text, "failure": how, "diff": d})
                 # repair the damage so that later programs start clean
                 b._datastore._transaction = None
+        elif f_ids != r_ids:
+            # model-free: what a committed block leaves behind is whole datasets — an inner block whose failure was caught
+            # must have taken both its registry rows and its artifacts with it
+            viol(f"committed block `{text}` (inner failures of kind {how} caught): datasets registered by it {r_ids}, artifacts written by it {f_ids} — "
+                 f"a nested block that failed left {'registry rows' if set(r_ids) - set(f_ids) else 'artifacts'} behind",
+                 f"committed-block-half-datasets:{how}", {"kind": "program", "program": text, "failure": how, "registered": r_ids, "artifacts": f_ids})
         elif after["txn_depth"] != before["txn_depth"]:
             viol(f"committed block `{text}` leaves the datastore transaction depth at {after['txn_depth']}", f"depth:{text}", {"kind": "program", "program": text})
             b._datastore._transaction = None
@@ -667,6 +673,59 @@ def faults(ctx, tmp):
             ctx.extra.setdefault("fault_boundaries", {})[name] = k - 1
 
         # ---------------- removals: all-or-nothing in the registry, non-targets intact, next emptyTrash completes
+        # one call over two runs of which the second cannot be removed (it is a member of a CHAINED collection): the call
+        # fails, and all-or-nothing means the first run and its datasets are still there — for a fresh client too
+        from lsst.daf.butler import Butler as _B, CollectionType as _CT
+
+        for order in (("r2", "r3"), ("r3", "r2")):
+            root, b, dt = fresh("r_two_runs_" + order[0])
+            keep = b.put({"keep": 1}, dt, instrument="I", detector=1)
+            b.registry.registerRun("r2"), b.registry.registerRun("r3")
+            t1 = b.put({"t": 1}, dt, instrument="I", detector=2, run="r2")
+            t2 = b.put({"t": 2}, dt, instrument="I", detector=3, run="r3")
+            b.registry.registerCollection("holds_r3", _CT.CHAINED)
+            b.registry.setCollectionChain("holds_r3", ["r3"])
+            before = snapshot(b, root, [dt])
+            try:
+                b.removeRuns(list(order), unstore=True)
+                failed = None
+            except Exception as e:
+                failed = type(e).__name__
+            ctx.evaluations += 1
+            ctx.count("removeRuns-two-runs-one-undeletable")
+            problems = []
+            if failed is None:
+                problems.append("the call was accepted although run r3 is a member of a CHAINED collection")
+            try:
+                b._datastore.emptyTrash()
+            except Exception as e:
+                problems.append(f"emptyTrash afterwards raised {type(e).__name__}")
+            fresh_b = _B.from_config(root, writeable=False)
+            try:
+                if fresh_b.get(keep) != {"keep": 1}:
+                    problems.append("a dataset that was not targeted changed")
+            except Exception as e:
+                problems.append(f"a dataset that was not targeted is unreadable ({type(e).__name__})")
+            if failed is not None:
+                # all-or-nothing in the registry (what a fresh client sees); artifacts are the next trash emptying's business
+                after = snapshot(fresh_b, root, [dt])
+                if after["registry"] != before["registry"] or after["collections"] != before["collections"]:
+                    lost = [c_ for c_ in before["collections"] if c_ not in after["collections"]]
+                    problems.append(f"the failed call changed the registry: collections lost {lost}, dataset rows "
+                                    f"{sum(map(len, before['registry'].values()))} -> {sum(map(len, after['registry'].values()))}")
+                for r_, want_ in ((t1, {"t": 1}), (t2, {"t": 2})):
+                    if fresh_b.registry.getDataset(r_.id) is not None and bool(fresh_b.exists(r_, full_check=True)):
+                        try:
+                            if fresh_b.get(r_) != want_:
+                                problems.append(f"dataset of run {r_.run} changed")
+                        except Exception as e:
+                            problems.append(f"dataset of run {r_.run} is reported as existing but cannot be read ({type(e).__name__})")
+            if problems:
+                viol(f"removeRuns({list(order)}) where r3 cannot be removed -> {failed}: " + "; ".join(problems[:4]), f"removeRuns-two-runs:{order[0]}",
+                     {"kind": "removal", "operation": "removeRuns", "runs": list(order), "problems": problems})
+            del b, fresh_b
+            shutil.rmtree(root, ignore_errors=True)
+
         for name in ("prune-purge", "removeRuns"):
             k = 1
             while True:
